@@ -77,7 +77,16 @@ def clusterseq (i : Info) (t : List Ev) : String :=
         let window := ((prefixTo t k).reverse.takeWhile fun e => match e with | .push k' => k' != k | _ => true).reverse
         let ostarts := sortPairs (window.filterMap fun e => match e with | .factory id c _ => some (id, c) | _ => none)
         let mstarts := sortPairs ((r1.effects ++ r.effects).filterMap fun e => match e with | .start id c _ => some (id, c) | _ => none)
+        -- the servers that were running before this push and are stopped by it
+        let before := t.take ((t.findIdx? (fun e => e == .push k)).getD 0)
+        let oldInsts := before.filterMap fun e => match e with | .factory id c i => some (i, (id, c)) | _ => none
+        let ostops := sortPairs (window.filterMap fun e => match e with
+          | .stopInv i => (oldInsts.find? (·.1 == i)).map (·.2) | _ => none)
+        let mold := (running cur).map fun (id, c, i) => (i, (id, c))
+        let mstops := sortPairs ((r1.effects ++ r.effects).filterMap fun e => match e with
+          | .stop i => (mold.find? (·.1 == i)).map (·.2) | _ => none)
         if model != act then s!"differ@{k}:running {repr act} model {repr model}"
+        else if ostops != mstops then s!"differ@{k}:stopped {repr ostops} model {repr mstops}"
         else if ostarts != mstarts then s!"differ@{k}:started {repr ostarts} model {repr mstarts}"
         else if cnt != r.entries.length then s!"differ@{k}:count {cnt} model {r.entries.length}"
         else go (k + 1) r.entries r.next (foLeft'.filter fun id => !failed2.contains id) rest
